@@ -193,7 +193,7 @@ func (p *Program) computeReadonly(fi *FuncInfo) bool {
 	if len(ptrs) == 0 {
 		return true
 	}
-	mods := assignedVarsNoCalls(info, fi.Decl.Body)
+	mods := assignedVarsNoCallsExcept(info, fi.Decl.Body, p.cacheFieldNames())
 	for o := range ptrs {
 		if mods[o] {
 			return false
@@ -286,8 +286,32 @@ func (p *Program) computeReadonly(fi *FuncInfo) bool {
 	return ok
 }
 
+// cacheFieldNames: field names declared as memoisation caches by some contract (`cache f`).
+func (p *Program) cacheFieldNames() map[string]bool {
+	m := map[string]bool{}
+	for _, fc := range p.Contracts.Funcs {
+		for _, c := range fc.Cache {
+			m[c] = true
+		}
+	}
+	return m
+}
+
 func assignedVarsNoCalls(info *types.Info, n ast.Node) map[types.Object]bool {
+	return assignedVarsNoCallsExcept(info, n, nil)
+}
+
+func assignedVarsNoCallsExcept(info *types.Info, n ast.Node, skipFields map[string]bool) map[types.Object]bool {
 	out := map[types.Object]bool{}
+	isCacheStore := func(e ast.Expr) bool {
+		// x.cache[k] = v  where cache is a declared cache field
+		if ix, ok := e.(*ast.IndexExpr); ok {
+			if se, ok := ix.X.(*ast.SelectorExpr); ok && skipFields[se.Sel.Name] {
+				return true
+			}
+		}
+		return false
+	}
 	var root func(e ast.Expr) types.Object
 	root = func(e ast.Expr) types.Object {
 		switch e := e.(type) {
@@ -321,6 +345,9 @@ func assignedVarsNoCalls(info *types.Info, n ast.Node) map[types.Object]bool {
 				if _, isIdent := l.(*ast.Ident); isIdent {
 					continue // rebinding a local name is not a write through it
 				}
+				if isCacheStore(l) {
+					continue
+				}
 				if o := root(l); o != nil {
 					out[o] = true
 				}
@@ -342,4 +369,70 @@ func assignedVarsNoCalls(info *types.Info, n ast.Node) map[types.Object]bool {
 		return true
 	})
 	return out
+}
+
+// ReadsField reports whether fi (transitively, through in-module callees that receive the receiver) reads
+// the named field of its receiver.  Conservative: any selector .field on a value of the receiver's struct type counts.
+func (p *Program) ReadsField(fi *FuncInfo, field string, seen map[*FuncInfo]bool) bool {
+	if seen[fi] {
+		return false
+	}
+	seen[fi] = true
+	if fi.Decl.Body == nil {
+		return true
+	}
+	info := fi.Pkg.TypesInfo
+	sig := fi.Obj.Type().(*types.Signature)
+	if sig.Recv() == nil {
+		return false
+	}
+	rt := derefType(sig.Recv().Type())
+	found := false
+	ast.Inspect(fi.Decl.Body, func(n ast.Node) bool {
+		if found {
+			return false
+		}
+		switch e := n.(type) {
+		case *ast.SelectorExpr:
+			if sel, ok := info.Selections[e]; ok && sel.Kind() == types.FieldVal && e.Sel.Name == field {
+				if types.Identical(derefType(info.TypeOf(e.X)), rt) {
+					found = true
+				}
+			}
+		case *ast.CallExpr:
+			var callee *types.Func
+			switch f := ast.Unparen(e.Fun).(type) {
+			case *ast.Ident:
+				callee, _ = info.Uses[f].(*types.Func)
+			case *ast.SelectorExpr:
+				if sel, ok := info.Selections[f]; ok {
+					callee, _ = sel.Obj().(*types.Func)
+				} else {
+					callee, _ = info.Uses[f.Sel].(*types.Func)
+				}
+			}
+			if callee != nil {
+				if cfi := p.ByObj[callee]; cfi != nil {
+					csig := cfi.Obj.Type().(*types.Signature)
+					takes := csig.Recv() != nil && types.Identical(derefType(csig.Recv().Type()), rt)
+					for i := 0; i < csig.Params().Len(); i++ {
+						if types.Identical(derefType(csig.Params().At(i).Type()), rt) {
+							takes = true
+						}
+					}
+					if takes {
+						if csig.Recv() != nil && types.Identical(derefType(csig.Recv().Type()), rt) {
+							if p.ReadsField(cfi, field, seen) {
+								found = true
+							}
+						} else {
+							found = true // passed as a plain parameter: not tracked
+						}
+					}
+				}
+			}
+		}
+		return true
+	})
+	return found
 }
